@@ -182,7 +182,7 @@ fn c08_hist(input: &Input, obs: &mut Obs) -> Result<(), Fail> {
         }
         for _ in 0..nops {
             let conn = connected(&w);
-            let op = s.weighted(&[3, 10, 5, 5, 10, 8, 2, 2, 4, 1]);
+            let op = s.weighted(&[3, 10, 5, 5, 10, 8, 2, 2, 4, 2]);
             match op {
                 0 => {
                     if let Some(c) = (0..nclients).find(|c| w.clients[*c].state == CState::Unconnected) {
@@ -275,7 +275,34 @@ fn c08_hist(input: &Input, obs: &mut Obs) -> Result<(), Fail> {
                     }
                 }
                 _ => {
-                    // let time pass: nothing
+                    // sizes that line up with the server's 1024-byte reads, and long pipelined bursts
+                    if !conn.is_empty() {
+                        let c = conn[s.below(conn.len())];
+                        let quiet = w.clients[c].staged.is_empty() && w.clients[c].unsent.is_empty() && w.clients[c].composed.len() == w.clients[c].yielded.len();
+                        if s.chance(128) {
+                            if quiet {
+                                // the server has read everything so far: this request fills k reads exactly
+                                let total = 1024 * s.range(1, 2) - [0usize, 0, 1, 23][s.below(4)];
+                                let body = if total > 1100 { s.range(200, 900) } else { 0 };
+                                let spec = ReqSpec { method: if body > 0 { 1 } else { 0 }, version: 1, body, expect: body > 0 && s.chance(80), extra_headers: 0, body_kind: 0 };
+                                if w.send_request_sized(c, &spec, total) {
+                                    obs.label("request_sized_to_fill_reads_exactly");
+                                    // possibly a second request right behind, completing the alignment case
+                                    if s.chance(100) {
+                                        let g = ReqSpec { method: 0, version: 1, body: 0, expect: false, extra_headers: 0, body_kind: 0 };
+                                        w.send_request(c, &g, &[]);
+                                    }
+                                }
+                            }
+                        } else if s.chance(40) {
+                            let g = ReqSpec { method: 0, version: 1, body: 0, expect: false, extra_headers: 0, body_kind: 0 };
+                            for _ in 0..s.range(130, 180) {
+                                w.send_request(c, &g, &[]);
+                            }
+                            pipelined = true;
+                            obs.label("burst_of_130+_pipelined_requests");
+                        }
+                    }
                 }
             }
             c08_check_api(&w, 0)?;
